@@ -689,6 +689,24 @@ def make_met(P):
             vals = [float(z[kk]) for kk in STAT_KEYS if not math.isnan(float(z[kk]))]
             return max(ulps(abs(v), unit, eps) for v in vals)
 
+        # float32 poses (pypose's default dtype) with float64 timestamps of Unix-epoch size: stamps must keep their
+        # own precision whatever the dtype of the poses, otherwise every pose is associated with the same stamp
+        eps32 = eps_of("f32")
+        rst_e = rst + 1311868063.0
+        est_e = est + 1311868063.0
+        r32, rs32 = pp.SE3(r.tensor().float()), pp.SE3(r_same.tensor().float())
+
+        def zero_ulps32(z):
+            vals = [float(z[kk]) for kk in STAT_KEYS if not math.isnan(float(z[kk]))]
+            return max(ulps(abs(v), unit, eps32) for v in vals)
+        if P["metric"] == "ape":
+            ev.append({"act": "zero", "ulps": zero_ulps32(pp.metric.ape(rst_e.clone(), r32.clone(), est_e.clone(), rs32.clone(), **kw)),
+                       "align": False, "scale": False})
+        else:
+            ev.append({"act": "zero", "ulps": zero_ulps32(pp.metric.rpe(rst_e.clone(), r32.clone(), est_e.clone(), rs32.clone(),
+                                                                        **dict(kw, delta=float(P.get("dl", 1)), all=bool(P.get("all", False)),
+                                                                               rpair=bool(P.get("rpair", False))))),
+                       "pairing": "frame"})
         if P["metric"] == "ape":
             for al, sc in ((False, False), (True, False), (True, True)):
                 if al and n < 3:
